@@ -122,6 +122,9 @@ Step == /\ Going
            ELSE cs' = StepFn(tbl, env, cs, pol[(cs.k % Len(pol)) + 1])
         /\ UNCHANGED <<sp, end, tbl, under, phase, env, pol>>
 
+(* tbl and under are functions of <<sp, end>>: left out of the fingerprint *)
+CView == <<sp, end, phase, env, pol, cs>>
+
 CNext == Build \/ Start \/ Step
 CSpec == CInit /\ [][CNext]_allvars
 CFairSpec == CSpec /\ WF_allvars(Step)
